@@ -40,7 +40,9 @@ Record rmodel := {
   r_meths : list rmeth;
   r_clonable : bool;           (* #[derive(Clone)] present *)
   r_guard : bool;              (* self-consuming methods check inter_get_count() <= 1 *)
-  r_stop_first : bool }.       (* play intercepts the stop message before dispatch and returns *)
+  r_stop_first : bool;         (* play intercepts the stop message before dispatch and returns *)
+  r_drain : bool }.            (* dropping the receiver discards the queued messages (std, tokio); async-channel keeps them
+                                  - and the oneshot senders inside - alive as long as any sender exists *)
 
 Definition route (ix : list nat) (vs : list V) : list V := map (fun i => nth i vs dv) ix.
 
@@ -222,10 +224,10 @@ Definition step_client (m : rmodel) (s : st) (t : nat) : option st :=
   end.
 
 (* the actor thread ends abnormally: the receiver and every queued message (with the oneshot senders inside) are dropped *)
-Definition crash (s : st) (why : reason) (extra : list callid) : st :=
+Definition crash (m : rmodel) (s : st) (why : reason) (extra : list callid) : st :=
   let gone := extra ++ qids s in
   s ;; with_actor None ;; with_busy None ;; with_exited (Some why) ;; with_queue []
-    ;; with_slots (drop_tx (slots s) gone) ;; with_deq (deq s ++ qids s) ;; with_dropped (dropped s ++ gone) ;; with_drops (S (drops s)).
+    ;; with_slots (drop_tx (slots s) (if r_drain m then gone else extra)) ;; with_deq (deq s ++ qids s) ;; with_dropped (dropped s ++ gone) ;; with_drops (S (drops s)).
 
 Definition step_actor (m : rmodel) (s : st) : option st :=
   match exited s with
@@ -245,7 +247,7 @@ Definition step_actor (m : rmodel) (s : st) : option st :=
           if r_stop_first m then
             (* reply (actor, receiver) and return: the actor value moves to the caller, the receiver is dropped with it *)
             Some (s ;; with_actor None ;; with_exited (Some Stopped) ;; with_queue []
-                    ;; with_slots (drop_tx (slot_set (slots s) cid (SActor a)) (map msg_id q))
+                    ;; with_slots (drop_tx (slot_set (slots s) cid (SActor a)) (if r_drain m then map msg_id q else []))
                     ;; with_deq (deq s ++ cid :: map msg_id q) ;; with_dropped (dropped s ++ map msg_id q) ;; with_moved (S (moved s)))
           else
             (* dispatched like any message: the `=> ()` arm ignores it, its oneshot sender is dropped *)
@@ -261,7 +263,7 @@ Definition step_actor (m : rmodel) (s : st) : option st :=
       | Some rm, Some a =>
         let args := route (rm_args rm) fs in
         match sem (rm_callee rm) a args with
-        | None => Some (crash s (PanickedIn cid) [cid])
+        | None => Some (crash m s (PanickedIn cid) [cid])
         | Some (a', r) =>
           let s1 := s ;; with_actor (Some a') ;; with_busy None ;; with_applied (applied s ++ [(cid, rm_callee rm, args, r)]) in
           if rm_reply rm then
@@ -269,7 +271,7 @@ Definition step_actor (m : rmodel) (s : st) : option st :=
               match slot_get (slots s) cid with
               | Some SRxDropped =>
                 (* the caller abandoned the pending call: the reply fails *)
-                if rm_loud_reply rm then Some (crash s1 (ReplyFailed cid) []) else Some s1
+                if rm_loud_reply rm then Some (crash m s1 (ReplyFailed cid) []) else Some s1
               | _ => Some (s1 ;; with_slots (slot_set (slots s) cid (SFull r)))
               end
             else Some (s1 ;; with_slots (drop_tx (slots s) [cid]))
